@@ -25,21 +25,39 @@
  * symbolic length), except that its bytes at offsets vg_k and vg_k2 hold what the real
  * function leaves there (the copied byte inside the range, the old byte outside it).  The real functions copy every byte, so
  * they are one of the behaviours of the model for every value of the ghosts.
+ * Units that need one ghost offset only define VERIF_MB_GHOST1 (vg_k2 is then not tracked).
  * Memory safety is checked exactly: source readable, destination writable for n bytes
  * (n == 0 with any pointer is accepted, as glibc does and C2y defines). */
 #ifdef VERIF_MB_GHOSTCOPY
+/* The accesses inside this helper are covered by the r_ok/w_ok assertions of its callers
+ * (checked obligations): offsets below n of s and d, offsets below the object size of d's
+ * object.  cbmc's own per-access checks are therefore switched off inside it (they restate
+ * the same facts through 64-bit offset arithmetic and cost minutes). */
+#pragma CPROVER check push
+#pragma CPROVER check disable "pointer"
+#pragma CPROVER check disable "pointer-overflow"
+#pragma CPROVER check disable "pointer-primitive"
+#pragma CPROVER check disable "bounds"
+#pragma CPROVER check disable "conversion"
+#pragma CPROVER check disable "signed-overflow"
 static void vg_ghost_copy(unsigned char *d, const unsigned char *s, size_t n)
 {
     size_t doff = __CPROVER_POINTER_OFFSET(d), osz = __CPROVER_OBJECT_SIZE(d);
     unsigned char *base = d - doff;
-    /* the two ghost offsets of the destination OBJECT: new value if inside the copied range, else kept */
-    _Bool v1 = vg_k < osz, v2 = vg_k2 < osz;
+    /* the ghost offsets of the destination OBJECT: new value if inside the copied range, else kept */
+    _Bool v1 = vg_k < osz;
     unsigned char b1 = !v1 ? 0 : (doff <= vg_k && vg_k - doff < n) ? s[vg_k - doff] : base[vg_k];
+#ifndef VERIF_MB_GHOST1
+    _Bool v2 = vg_k2 < osz;
     unsigned char b2 = !v2 ? 0 : (doff <= vg_k2 && vg_k2 - doff < n) ? s[vg_k2 - doff] : base[vg_k2];
+#endif
     __CPROVER_havoc_object(d);
     if (v1) base[vg_k] = b1;
+#ifndef VERIF_MB_GHOST1
     if (v2) base[vg_k2] = b2;
+#endif
 }
+#pragma CPROVER check pop
 void *memcpy(void *dst, const void *src, size_t n)
 {
     if (n > 0) {
@@ -72,9 +90,40 @@ void *realloc(void *p, size_t n)
     size_t m = __CPROVER_OBJECT_SIZE(p);
     if (n < m) m = n;
     if (vg_k < m) r[vg_k] = ((unsigned char *) p)[vg_k];
+#ifndef VERIF_MB_GHOST1
     if (vg_k2 < m) r[vg_k2] = ((unsigned char *) p)[vg_k2];
+#endif
     free(p);
     return r;
+}
+#endif
+
+/* memset: same over-approximation (object arbitrary except the ghost offsets) */
+#ifdef VERIF_MB_GHOSTCOPY
+#pragma CPROVER check push
+#pragma CPROVER check disable "pointer"
+#pragma CPROVER check disable "pointer-overflow"
+#pragma CPROVER check disable "pointer-primitive"
+#pragma CPROVER check disable "bounds"
+#pragma CPROVER check disable "conversion"
+#pragma CPROVER check disable "signed-overflow"
+static void vg_ghost_set(unsigned char *d, unsigned char c, size_t n)
+{
+    size_t doff = __CPROVER_POINTER_OFFSET(d), osz = __CPROVER_OBJECT_SIZE(d);
+    unsigned char *base = d - doff;
+    _Bool v1 = vg_k < osz;
+    unsigned char b1 = !v1 ? 0 : (doff <= vg_k && vg_k - doff < n) ? c : base[vg_k];
+    __CPROVER_havoc_object(d);
+    if (v1) base[vg_k] = b1;
+}
+#pragma CPROVER check pop
+void *memset(void *dst, int c, size_t n)
+{
+    if (n > 0) {
+        __CPROVER_assert(__CPROVER_w_ok(dst, n), "memset: destination region writeable");
+        vg_ghost_set((unsigned char *) dst, (unsigned char) c, n);
+    }
+    return dst;
 }
 #endif
 
@@ -86,6 +135,13 @@ size_t vg_cmp_d;
 /* memcmp: result 0 <=> the n bytes are equal; otherwise the sign is that of the first
  * differing pair (as unsigned char).  "All bytes before the first difference d are equal" is
  * stated at the ghost offsets vg_k, vg_k2, vg_j.  Reads exactly n bytes of each argument. */
+/* accesses inside memcmp/memmem are covered by their r_ok assertions: per-access checks off (see vg_ghost_copy) */
+#pragma CPROVER check push
+#pragma CPROVER check disable "pointer"
+#pragma CPROVER check disable "pointer-overflow"
+#pragma CPROVER check disable "pointer-primitive"
+#pragma CPROVER check disable "bounds"
+#pragma CPROVER check disable "conversion"
 int memcmp(const void *a, const void *b, size_t n)
 {
     int c = nondet_int();
@@ -120,6 +176,7 @@ void *memmem(const void *h, size_t hl, const void *nd, size_t nl)
     __CPROVER_assume(!(vg_k < nl) || ((const unsigned char *) h)[r + vg_k] == ((const unsigned char *) nd)[vg_k]);
     return (unsigned char *) h + r;
 }
+#pragma CPROVER check pop
 
 /* ==== one input stream / descriptor ===============================================
  * Ghost model of the ONE input the reader constructors are given:
@@ -129,19 +186,46 @@ void *memmem(const void *h, size_t hl, const void *nd, size_t nl)
  *   vg_in_eof/err   stdio indicators
  *   vg_in_byte      the input's byte at absolute offset vg_in_at (arbitrary offset: every byte)
  * ASSUMES: the input does not change while it is read (no concurrent truncation). */
-_Bool vg_in_seekable, vg_in_eof, vg_in_err;
+_Bool vg_in_seekable, vg_in_eof, vg_in_err, vg_in_rderr;   /* rderr: a read(2) call reported -1 */
 long vg_in_size, vg_in_pos;
 size_t vg_in_at;
 unsigned char vg_in_byte;
 #define VG_IN_OK  (0 <= vg_in_pos && vg_in_pos <= vg_in_size && vg_in_size <= VCAP)
 
-/* deliver n bytes at p from the current position: arbitrary bytes except the ghost one */
+/* n bytes at p become arbitrary input bytes.  As in vg_ghost_copy the whole OBJECT is havocked (cheap) and
+ * the bytes the proof follows are put back: the object's bytes at the ghost offsets vg_k / vg_k2 when they lie
+ * outside [p, p+n) (they are not touched by the real call), and the input's ghost byte vg_in_byte when the
+ * input offset vg_in_at is delivered by this call (good = number of leading bytes that are true input bytes). */
+#pragma CPROVER check push
+#pragma CPROVER check disable "pointer"
+#pragma CPROVER check disable "pointer-overflow"
+#pragma CPROVER check disable "pointer-primitive"
+#pragma CPROVER check disable "bounds"
+#pragma CPROVER check disable "conversion"
+#pragma CPROVER check disable "signed-overflow"
+static void vg_in_store(unsigned char *p, size_t n, size_t good)
+{
+    size_t doff = __CPROVER_POINTER_OFFSET(p), osz = __CPROVER_OBJECT_SIZE(p);
+    unsigned char *base = p - doff;
+    _Bool k1 = vg_k < osz && !(doff <= vg_k && vg_k - doff < n);
+    unsigned char b1 = k1 ? base[vg_k] : 0;
+#ifndef VERIF_MB_GHOST1
+    _Bool k2 = vg_k2 < osz && !(doff <= vg_k2 && vg_k2 - doff < n);
+    unsigned char b2 = k2 ? base[vg_k2] : 0;
+#endif
+    __CPROVER_havoc_object(p);
+    if (k1) base[vg_k] = b1;
+#ifndef VERIF_MB_GHOST1
+    if (k2) base[vg_k2] = b2;
+#endif
+    if ((size_t) vg_in_pos <= vg_in_at && vg_in_at - (size_t) vg_in_pos < good)
+        p[vg_in_at - (size_t) vg_in_pos] = vg_in_byte;
+}
+#pragma CPROVER check pop
 static void vg_in_deliver(unsigned char *p, size_t n)
 {
     if (n > 0) {
-        __CPROVER_havoc_slice(p, n);
-        if ((size_t) vg_in_pos <= vg_in_at && vg_in_at - (size_t) vg_in_pos < n)
-            p[vg_in_at - (size_t) vg_in_pos] = vg_in_byte;
+        vg_in_store(p, n, n);
         vg_in_pos += (long) n;
     }
 }
@@ -150,7 +234,7 @@ static void vg_in_deliver(unsigned char *p, size_t n)
 long ftell(FILE *fp)
 {
     __CPROVER_assert(fp != NULL, "ftell: stream not NULL");
-    if (!vg_in_seekable || nondet_bool()) { errno = nondet_int(); return -1L; }
+    if (!vg_in_seekable || nondet_bool()) { return -1L; }
     return vg_in_pos;
 }
 /* fseek(3): 0 and the new position (clears EOF), or -1 (ESPIPE, EINVAL for a negative result, EIO) */
@@ -158,10 +242,10 @@ int fseek(FILE *fp, long off, int whence)
 {
     __CPROVER_assert(fp != NULL, "fseek: stream not NULL");
     __CPROVER_assert(whence == SEEK_SET || whence == SEEK_CUR || whence == SEEK_END, "fseek: whence valid");
-    if (!vg_in_seekable || nondet_bool()) { errno = nondet_int(); return -1; }
+    if (!vg_in_seekable || nondet_bool()) { return -1; }
     long base = whence == SEEK_SET ? 0 : whence == SEEK_CUR ? vg_in_pos : vg_in_size;
     /* ASSUMES: no seek beyond the end of the file (mbuff.c seeks to 0-from-END and back only) */
-    if (off < -base || off > vg_in_size - base) { errno = EINVAL; return -1; }
+    if (off < -base || off > vg_in_size - base) { return -1; }
     vg_in_pos = base + off;
     vg_in_eof = 0;
     return 0;
@@ -188,16 +272,14 @@ size_t fread(void *ptr, size_t size, size_t nmemb, FILE *fp)
             used = avail;
         } else {
             vg_in_err = 1;                       /* error; the position is indeterminate (kept inside the input) */
-            errno = nondet_int();
+           
             used = nondet_size_t();
             __CPROVER_assume(whole <= used && used <= avail && used <= total);
         }
-        __CPROVER_havoc_slice(ptr, total);       /* a partial item has indeterminate value */
+        vg_in_store((unsigned char *) ptr, total, whole);   /* a partial item has indeterminate value */
     } else {
-        __CPROVER_havoc_slice(ptr, whole);
+        vg_in_store((unsigned char *) ptr, whole, whole);
     }
-    if ((size_t) vg_in_pos <= vg_in_at && vg_in_at - (size_t) vg_in_pos < whole)
-        ((unsigned char *) ptr)[vg_in_at - (size_t) vg_in_pos] = vg_in_byte;
     vg_in_pos += (long) used;
     return r;
 }
@@ -205,11 +287,11 @@ size_t fread(void *ptr, size_t size, size_t nmemb, FILE *fp)
 /* lseek(2): new offset, or -1 (ESPIPE for pipe/socket/FIFO, EBADF, EINVAL) */
 off_t lseek(int fd, off_t off, int whence)
 {
-    if (fd < 0 || !vg_in_seekable || nondet_bool()) { errno = nondet_int(); return (off_t) -1; }
+    if (fd < 0 || !vg_in_seekable || nondet_bool()) { return (off_t) -1; }
     long base = whence == SEEK_SET ? 0 : whence == SEEK_CUR ? vg_in_pos : vg_in_size;
-    if (whence != SEEK_SET && whence != SEEK_CUR && whence != SEEK_END) { errno = EINVAL; return (off_t) -1; }
+    if (whence != SEEK_SET && whence != SEEK_CUR && whence != SEEK_END) { return (off_t) -1; }
     /* ASSUMES: no seek beyond the end of the file (see fseek) */
-    if (off < -base || off > vg_in_size - base) { errno = EINVAL; return (off_t) -1; }
+    if (off < -base || off > vg_in_size - base) { return (off_t) -1; }
     vg_in_pos = base + off;
     return (off_t) vg_in_pos;
 }
@@ -217,7 +299,7 @@ off_t lseek(int fd, off_t off, int whence)
  * otherwise 1..min(n, remaining) bytes: SHORT COUNTS ARE LEGAL at any time (pipes, ttys, signals). */
 ssize_t read(int fd, void *buf, size_t n)
 {
-    if (fd < 0 || nondet_bool()) { errno = nondet_int(); return -1; }
+    if (fd < 0 || nondet_bool()) { vg_in_rderr = 1; return -1; }
     if (n == 0) return 0;
     __CPROVER_assert(__CPROVER_w_ok(buf, n), "read: destination region writeable for n bytes");
     size_t avail = (size_t) (vg_in_size - vg_in_pos);
@@ -233,10 +315,16 @@ ssize_t read(int fd, void *buf, size_t n)
  * output error; writes at most size bytes including the terminator when size > 0.  Format
  * semantics are NOT modelled: the text is arbitrary (non-NUL bytes, then NUL).  The length may differ
  * between two calls with the same arguments (over-approximation). */
+/* The outcomes of the first and second call are ghost INPUTS (arbitrary), so that a behaviour of a
+ * caller can be selected in its precondition (e.g. "the first call reports less than INT_MAX"). */
+int vg_vsn_ret[2];
+unsigned vg_vsn_calls;
 int vsnprintf(char *str, size_t size, const char *format, va_list ap)
 {
     __CPROVER_assert(format != NULL, "vsnprintf: format not NULL");
-    int r = nondet_int();
+    int r = vg_vsn_calls < 2 ? vg_vsn_ret[vg_vsn_calls] : nondet_int();
+    vg_vsn_calls++;
+    if (size > (size_t) INT_MAX) { return -1; }   /* POSIX: fails with EOVERFLOW, nothing written */
     if (size > 0) {
         __CPROVER_assert(__CPROVER_w_ok(str, size), "vsnprintf: destination writeable for size bytes");
         if (r >= 0) {
